@@ -5,7 +5,7 @@ Model of `pybtex/bibtex/bst.py`, function by function.
   ---------------------------------------------  -----------------------------------------
   `strip_comment(line)`                          `stripComment` (loop = `stripGo in_string`)
   `BstParser.LBRACE/RBRACE/STRING/INTEGER/NAME`  `lbracePat … namePat`
-  `BstParser.COMMANDS[name.upper()]`             `Bst.cmdArity` over `Gen.bstCommands` (regenerated)
+  `BstParser.COMMANDS[name.upper()]`             `cmdArityM` over `Gen.bstCommands` (regenerated)
   `process_int_literal` …                        `processIntLiteral` …
   `BstParser.parse_group`                        `parseGroupF` (fuel = remaining length + 1)
   `BstParser.parse_command`                      `parseCommand` / `parseGroups`
@@ -16,14 +16,15 @@ The value computed is the abstract syntax of `Spec/Bst.lean` (`Integer(v)` ↦ `
 `String(s)` ↦ `.str s`, `QuotedVar(n)` ↦ `.quoted n`, `Identifier(n)` ↦ `.name n`,
 `FunctionLiteral(body)` ↦ `.fn body`, a command `[name, group, …]` ↦ `⟨name, groups⟩`).
 
-DEVIATION FROM THE PINNED CODE (candidate defect #25, `proposed_fixes/C15-1.diff`):
-`parse_command` of the pinned tree uses `optional([LBRACE])` and silently stops when a command
-has fewer groups than its arity (unless the text ends there, in which case it raises
+NOTE (candidate defect #25, `proposed_fixes/C15-1.diff`, repaired in /repo by 5237556):
+`parse_command` of the pinned tree used `optional([LBRACE])` and silently stopped when a command
+had fewer groups than its arity (unless the text ended there, in which case it raised
 `PrematureEOF`).  Such a text is malformed and the property demands a syntax error; the model
 follows the repaired code, which `require`s the brace.
 -/
 import PybtexModel.Model.Scanner
 import PybtexModel.Spec.Bst
+import PybtexModel.Gen.BstCommands
 
 namespace Pybtex.Bst
 open Pybtex.Scanner
@@ -155,12 +156,15 @@ def parseGroups : Nat → St → Except Err (List (List Tok) × St)
         | .error e => .error e
         | .ok (gs, st3) => .ok (g :: gs, st3)
 
+/-- `self.COMMANDS[command_name.upper()]` over the table regenerated from /repo (`none` = `KeyError`) -/
+def cmdArityM (name : Str) : Option Nat := Gen.bstCommands.lookup (upper name)
+
 /-- `list(self.parse_command())` -/
 def parseCommand (st : St) : Except Err (Command × St) :=
   match required [(TokKind.name, namePat)] (some "BST command".toList) true st with
   | .error e => .error e
   | .ok ((_, commandName), st1) =>
-    match cmdArity commandName with
+    match cmdArityM commandName with
     | none => .error (.tokenRequired "BST command".toList st1.line)
     | some arity =>
       match parseGroups arity st1 with
